@@ -14,6 +14,7 @@ static manager leaves the price target unbounded; the major-swap timestamp is st
 when is_major_swap; the stored variables come from the manager of the same pool.
 Also decided: intermediate products are wide enough for every validated constant set; changing the constants
 always resets the variables; the skip range is sized from the updated reference object;
+Also decided: the reset clears all seven variables, timestamps included; the skip advance receives the next tick's own price.
 Not decided: per-step rates along a swap, the skip optimisation's equivalence, decay numerics."""
 from analysis import poly as P, cfg, atoms as A, preach, writes
 from analysis.ir import callee_path, AnchorMissing
